@@ -15,7 +15,11 @@ use std::{
 
 use log::{debug, trace};
 use memmap2::MmapMut;
-use parking_lot::{Condvar, Mutex, RwLock, RwLockReadGuard, RwLockWriteGuard};
+#[cfg(not(feature = "verif"))]
+use parking_lot::{RwLock, RwLockReadGuard, RwLockWriteGuard};
+use parking_lot::{Condvar, Mutex};
+#[cfg(feature = "verif")]
+use verif::{RwLock, RwLockReadGuard, RwLockWriteGuard};
 
 mod disk_usage;
 pub mod error;
@@ -28,6 +32,8 @@ mod region;
 mod region_metadata;
 mod region_state;
 mod regions;
+#[cfg(feature = "verif")]
+pub mod verif;
 
 pub use disk_usage::*;
 pub use error::*;
@@ -111,6 +117,16 @@ impl Database {
             bg_tasks: Mutex::new(Vec::new()),
             bg_sync: (Mutex::new(false), Condvar::new()),
         }));
+
+        #[cfg(feature = "verif")]
+        {
+            use verif::{LockClass, lock_addr, register_lock};
+            let owner = Arc::as_ptr(&db.0) as usize;
+            register_lock(lock_addr(&db.0.layout), LockClass::Layout, owner);
+            register_lock(lock_addr(&db.0.regions), LockClass::Regions, owner);
+            register_lock(lock_addr(&db.0.mmap), LockClass::Mmap, owner);
+            register_lock(lock_addr(&db.0.file), LockClass::File, owner);
+        }
 
         db.regions_mut().fill(&db)?;
         *db.layout_mut() = Layout::from(&*db.regions());
@@ -642,6 +658,17 @@ impl Drop for Database {
         if Arc::strong_count(&self.0) == 1 {
             let _ = self.sync_bg_tasks();
         }
+    }
+}
+
+#[cfg(feature = "verif")]
+impl Drop for DatabaseInner {
+    fn drop(&mut self) {
+        use verif::{lock_addr, unregister_lock};
+        unregister_lock(lock_addr(&self.layout));
+        unregister_lock(lock_addr(&self.regions));
+        unregister_lock(lock_addr(&self.mmap));
+        unregister_lock(lock_addr(&self.file));
     }
 }
 
